@@ -7,6 +7,14 @@ A spec file (units/<ID>/<name>.vspec) is a text file made of sections:
     //@prelude
     ...verus text: spec fns, assume_specification, external_body helpers...
     //@item name=<obligation> file=<repo path> fn=<fn name> [after=<regex>] [nth=<n>] [ret=<name>] [strip_self=1]
+    //@item name=<obligation> file=<repo path> start="<regex>" end="<regex>" [include_start=1] [include_end=1]
+                                                   (fragment item, DESIGN 2.2 K-fragment: the verbatim text between
+                                                    two anchors becomes the body of the fn declared in //@sig)
+    //@sig
+    fn name(params) -> (r: T)                      (fragment items only: the declared signature; its parameters are
+                                                    the fragment's free variables)
+    //@tail
+    (a, b)                                         (fragment items only: result expression appended after the text)
     //@contract
     requires ..., ensures ...,                     (spliced between signature and body)
     //@proof
@@ -73,12 +81,14 @@ def build(spec_path, repo, out_path):
             epilogue.append(s["text"])
         elif k == "item":
             cur = {"kv": _kv(s["arg"]), "contract": "", "proof": "", "at": [], "before": [], "rewrite": [],
-                   "drop_macros": []}
+                   "drop_macros": [], "sig": "", "tail": ""}
             items.append(cur)
         elif cur is None:
             raise LostAnchor("section //@%s before any //@item in %s" % (k, spec_path))
         elif k == "contract":
             cur["contract"] = s["text"]
+        elif k in ("sig", "tail"):
+            cur[k] = s["text"]
         elif k == "proof":
             cur["proof"] = s["text"]
         elif k == "at":
@@ -104,11 +114,25 @@ def build(spec_path, repo, out_path):
             raise LostAnchor(str(e))
         after = kv.get("after")
         nth = int(kv.get("nth", 0))
-        sig = fragment.fn_signature(src, kv["fn"], after, nth)
-        body = fragment.fn_body(src, kv["fn"], after, nth)
-        info["sha256"]["%s:%s" % (kv["file"], kv["fn"])] = fragment.sha(sig + "{" + body + "}")
-        info["dropped"].append("%s: everything outside fn %s (doc comments and attributes of the fn included)" % (
-            kv["file"], kv["fn"]))
+        if kv.get("start"):
+            # fragment item: verbatim text between two anchors, wrapped in the declared signature
+            if not kv.get("end") or not it["sig"].strip() or not kv.get("name"):
+                raise LostAnchor("fragment item needs name=, start=, end= and a //@sig section")
+            kv["fn"] = kv["name"]
+            body = fragment.between(src, kv["start"], kv["end"], kv.get("include_start") == "1",
+                                    kv.get("include_end") == "1")
+            sig = it["sig"].strip()
+            info["sha256"]["%s:%s" % (kv["file"], kv["name"])] = fragment.sha(body)
+            info["dropped"].append("%s: everything outside the text between /%s/ and /%s/ (wrapped as `%s`)" % (
+                kv["file"], kv["start"], kv["end"], " ".join(sig.split())))
+            if it["tail"]:
+                body = body + "\n" + it["tail"] + "\n"
+        else:
+            sig = fragment.fn_signature(src, kv["fn"], after, nth)
+            body = fragment.fn_body(src, kv["fn"], after, nth)
+            info["sha256"]["%s:%s" % (kv["file"], kv["fn"])] = fragment.sha(sig + "{" + body + "}")
+            info["dropped"].append("%s: everything outside fn %s (doc comments and attributes of the fn included)" % (
+                kv["file"], kv["fn"]))
         # signature: drop attributes/doc lines in front, visibility kept out (free fn in one file)
         sig = re.sub(r"^\s*(///[^\n]*\n|#\[[^\n]*\]\s*\n)*", "", sig)
         sig = re.sub(r"^\s*pub(\([^)]*\))?\s+", "", sig.strip())
